@@ -35,13 +35,16 @@ def instances(ctx, mask_only=False):
                 "orient": rng.choice(["after", "before", "symmetric", "directional"]), "excluded": excluded, "mask": mask,
                 "nullify": mask and rng.random() < 0.5}
         r2 = random.Random(rng.random())        # kernel arguments and adjacency dtype (drawn from a side stream)
+        if mask and r2.random() < 0.15:         # every node pruned: the vocabulary is the mask alone (index 0)
+            for tr in inst["trees"]:
+                tr["lab"] = [r2.choice(excluded) for _ in tr["lab"]]
         inst["offset"] = r2.choice([0, 0, 0, 1, 2])
         inst["knorm"] = r2.random() < 0.2
         inst["adj"] = r2.choice(["float", "float", "int", "bool", "float32"])
         if inst["offset"] >= inst["r"] and r2.random() < 0.7:
             inst["r"] = min(4, inst["offset"] + r2.choice([1, 2]))
-        if all(l in excluded for tr in trees for l in tr["lab"]):
-            continue
+        if all(l in excluded for tr in trees for l in tr["lab"]) and not mask:
+            continue          # (with a mask string the vocabulary is then the mask alone - a legal, if poor, model)
         out.append(inst)
     return out
 
